@@ -160,7 +160,7 @@ def main():
         "hooks": {
             "guard": "verif",
             "enable": "go build -tags verif -overlay /verif/.gen/<check>/overlay.json (overlay generated from /repo's working tree by tools/ovgen; no hook source is committed to /repo)",
-            "baseline_off_cmd": "cd /repo && go test -mod=mod -vet=off -count=1 -timeout 25m ./...",
+            "baseline_off_cmd": "cd /repo && go test -mod=mod -vet=off -count=1 -timeout 60m ./...",
             "source_commits": [],
             "add_only": True,
         },
